@@ -36,7 +36,7 @@ Record file := mkFile {
 }.
 
 Inductive event :=
-| EExec  (v : bytes) (s : bytes) (ok : bool)
+| EExec  (v : bytes) (i : nat) (s : bytes) (ok : bool)   (* i: index of s in the file (ghost, for proofs) *)
 | EWrite (r : rev) (ok : bool).
 
 Inductive outcome :=
@@ -106,16 +106,16 @@ Fixpoint run_stmts (v : bytes) (rest : list bytes) (srest : list hash) (r : rev)
   | [] => (ODone, r, t, fs, [])
   | s :: rest' =>
       let '(fail, fs1) := pop fs in
-      if fail then (OStmtErr, set_err r true, t, fs1, [EExec v s false])
+      if fail then (OStmtErr, set_err r true, t, fs1, [EExec v (r_applied r) s false])
       else match srest with
-           | [] => (OPanic, r, t, fs1, [EExec v s true])
+           | [] => (OPanic, r, t, fs1, [EExec v (r_applied r) s true])
            | h :: srest' =>
                let r' := step_applied r h in
                let '(ok, t2, fs2, e) := write t fs1 r' in
                if ok then
                  let '(o, r'', t3, fs3, es) := run_stmts v rest' srest' r' t2 fs2 in
-                 (o, r'', t3, fs3, EExec v s true :: e :: es)
-               else (OWriteErr, r', t2, fs2, [EExec v s true; e])
+                 (o, r'', t3, fs3, EExec v (r_applied r) s true :: e :: es)
+               else (OWriteErr, r', t2, fs2, [EExec v (r_applied r) s true; e])
            end
   end.
 
@@ -172,14 +172,22 @@ Fixpoint exec_files (files : list file) (t : list rev) (fs : list bool)
 Fixpoint journal (es : list event) : list (bytes * bytes) :=
   match es with
   | [] => []
-  | EExec v s true :: es' => (v, s) :: journal es'
+  | EExec v _ s true :: es' => (v, s) :: journal es'
   | _ :: es' => journal es'
+  end.
+
+(** Positions (version, statement index) of the statements that really ran. *)
+Fixpoint positions (es : list event) : list (bytes * nat) :=
+  match es with
+  | [] => []
+  | EExec v i _ true :: es' => (v, i) :: positions es'
+  | _ :: es' => positions es'
   end.
 
 Fixpoint exec_events (es : list event) : list event :=
   match es with
   | [] => []
-  | EExec v s ok :: es' => EExec v s ok :: exec_events es'
+  | EExec v i s ok :: es' => EExec v i s ok :: exec_events es'
   | _ :: es' => exec_events es'
   end.
 
@@ -199,6 +207,7 @@ Arguments tbl_put {hash}.
 Arguments write {hash}.
 Arguments journal {hash}.
 Arguments exec_events {hash}.
+Arguments positions {hash}.
 Arguments set_err {hash}.
 Arguments set_total {hash}.
 Arguments set_hashes {hash}.
